@@ -44,6 +44,11 @@ extern int __verif_memo_miss;   /* number of products/quotients that did not hit
 
 /* float<->double conversions with the x86 (and IEEE recommended) NaN rule: sign kept, payload truncated/extended, quiet bit set */
 float __verif_d2f(double x); double __verif_f2d(float x);
+/* memoised IEEE operations (ir2c --hook-fp): op 0 + 1 - 2 * 3 / ; an operation already performed on the same operand bit patterns reuses its circuit */
+float __verif_fop32(int op, float a, float b); double __verif_fop64(int op, double a, double b);
+/* sign/magnitude intrinsics and the libm functions used by xcomplex, bit-level (no floating-point circuits) */
+float __verif_fabs32(float x); double __verif_fabs64(double x); float __verif_copysign32(float x, float y); double __verif_copysign64(double x, double y);
+float __verif_maxnum32(float x, float y); double __verif_maxnum64(double x, double y); float __verif_minnum32(float x, float y); double __verif_minnum64(double x, double y);
 u8* __verif_alloc_exact(u64 n);   /* exact-size heap object, constant-size cases for small n */
 #define __verif_bitcast(ST, DT, x) (((union { ST s; DT d; }){ .s = (x) }).d)
 #endif
